@@ -13,6 +13,7 @@ use crate::engine::{fmt_words, guarded, hash_str, hash_words, Case, Local, Run};
 use crate::model::alpha;
 use crate::model::tt::{nbits, TT};
 use crate::{for_static, for_type};
+use volute::Lut;
 
 fn esc(s: &str) -> String {
     // case strings use ';' and '=' as separators: encode the text as hex bytes
@@ -100,6 +101,10 @@ pub fn replay(case: &Case) -> Result<Verdict, String> {
             }
             Ok(for_type!(st, n, go(&t)))
         }
+        "flags" => {
+            let t = TT::from_words(n, &case.words("t")?).ok_or("t malformed")?;
+            Ok(flagged_one(&t))
+        }
         "parse" => {
             let s = unesc(case.get("s")?)?;
             fn go<L: Tab>(n: usize, s: &str) -> Verdict {
@@ -173,6 +178,65 @@ fn all_strings<L: Tab>(run: &Run, st: bool, n: usize, sigma: &'static [&'static 
             }
         },
     );
+}
+
+/// Every string of 1 and 2 characters over U+0000..U+00FF (all ASCII incl. control
+/// characters, and the Latin-1 range as 2-byte UTF-8) — the whole small-width string space.
+fn all_bytes<L: Tab>(run: &Run, st: bool, n: usize) {
+    let width = std::cmp::max(1, nbits(n) / 4);
+    let total: u64 = 256 + 256 * 256;
+    run.section(&format!("PARSE all 1- and 2-character strings over U+0000..U+00FF, n={} {} (width {})", n, L::tname(n), width), true, "complete over the 256 code points (control characters included) for lengths 1 and 2", total, 2048, |r, l| {
+        for idx in r {
+            let s: String = if idx < 256 { char::from_u32(idx as u32).unwrap().to_string() } else { [char::from_u32(((idx - 256) / 256) as u32).unwrap(), char::from_u32(((idx - 256) % 256) as u32).unwrap()].iter().collect() };
+            parse_step::<L>(l, st, n, &s);
+        }
+    });
+}
+
+/// Format flags must not change what is printed (padding aside): `{:12}`, `{:.3}`, `{:>20}`, `{:#x}`, `{:08b}` ...
+fn flagged_formats(l: &Lut) -> Vec<(String, String)> {
+    vec![
+        ("{:12}".into(), format!("{:12}", l)),
+        ("{:.3}".into(), format!("{:.3}", l)),
+        ("{:>20}".into(), format!("{:>20}", l)),
+        ("{:<6.2}".into(), format!("{:<6.2}", l)),
+        ("{:#x}".into(), format!("{:#x}", l)),
+        ("{:.1x}".into(), format!("{:.1x}", l)),
+        ("{:08b}".into(), format!("{:08b}", l)),
+        ("{:.2b}".into(), format!("{:.2b}", l)),
+    ]
+}
+
+fn flagged_one(t: &TT) -> Verdict {
+    let (whex, wbin) = (format!("Lut{}({})", t.n, t.hex()), format!("Lut{}({})", t.n, t.bin()));
+    let r = guarded(|| {
+        let l = Lut::from_blocks(t.n, &t.w);
+        let mut out = flagged_formats(&l);
+        fn st<const N: usize, const T: usize>(w: &[u64]) -> Vec<(String, String)> {
+            let l = volute::StaticLut::<N, T>::from_blocks(w);
+            vec![("static {:12}".into(), format!("{:12}", l)), ("static {:.3}".into(), format!("{:.3}", l)), ("static {:.2b}".into(), format!("{:.2b}", l)), ("static {:>9x}".into(), format!("{:>9x}", l))]
+        }
+        match t.n {
+            3 => out.extend(st::<3, 1>(&t.w)),
+            5 => out.extend(st::<5, 1>(&t.w)),
+            7 => out.extend(st::<7, 2>(&t.w)),
+            _ => {}
+        }
+        out
+    });
+    match r {
+        Err(p) => fail("formatting with flags returns", p),
+        Ok(v) => {
+            for (spec, text) in v {
+                let want = if spec.contains('b') { &wbin } else { &whex };
+                // padding is tolerated, truncation or any other alteration is not
+                if text.trim() != want {
+                    return fail(format!("format!(\"{}\") prints {} (fill characters aside)", spec, want), format!("{:?}", text));
+                }
+            }
+            Ok(())
+        }
+    }
 }
 
 fn print_sweep<L: Tab>(run: &Run, st: bool, n: usize) {
@@ -250,6 +314,15 @@ fn edits<L: Tab>(run: &Run, st: bool, n: usize) {
                         let s = format!("{}{}{}", &base[..pos], sym, &base[pos + 1..]);
                         parse_step::<L>(l, st, n, &s);
                     }
+                    if pos % 16 == 0 || pos % 16 == 15 || pos + 1 == width {
+                        // every other single-byte character at the chunk boundaries
+                        for b in 0u8..128 {
+                            if !(b as char).is_ascii_hexdigit() {
+                                let s = format!("{}{}{}", &base[..pos], b as char, &base[pos + 1..]);
+                                parse_step::<L>(l, st, n, &s);
+                            }
+                        }
+                    }
                     // deletion
                     let s = format!("{}{}", &base[..pos], &base[pos + 1..]);
                     parse_step::<L>(l, st, n, &s);
@@ -323,6 +396,30 @@ pub fn run(run: &Run) {
             for_static!(n, pa(run, true, n));
         }
     }
+    fn ab<L: Tab>(run: &Run, st: bool, n: usize) {
+        all_bytes::<L>(run, st, n)
+    }
+    for n in 0..=3usize {
+        for st in [false, true] {
+            for_type!(st, n, ab(run, st, n));
+        }
+    }
+    run.section_seq("PRINT with format flags (width, precision, alignment, #, 0) on F(n), n=0..8: the flags do not alter the text", false, "8 flag combinations on Lut, 4 on Lut3/Lut5/Lut7", |l| {
+        for n in 0..=8usize {
+            for t in alpha::family_capped(n, run.seed, 0, 400) {
+                l.states += 1;
+                l.transitions += 8;
+                l.validated += 8;
+                match flagged_one(&t) {
+                    Ok(()) => {
+                        l.nontrivial += 1;
+                        l.digest ^= crate::engine::mix3(hash_words(&t.w), n as u64, 8);
+                    }
+                    Err(v) => l.violation(format!("{:02}|flags|{}", n, fmt_words(&t.w)), "C09/print/format-flags", format!("ty=D;kind=flags;n={};t={}", n, fmt_words(&t.w)), v.0, v.1),
+                }
+            }
+        }
+    });
     for n in 0..=3usize {
         let width = std::cmp::max(1, nbits(n) / 4);
         for st in [false, true] {
